@@ -18,6 +18,7 @@ func setupDNS(e *sym.Engine, st *sym.State, l *sym.Loaded) {
 	e.Redirects[qRetrieveNet] = root.Func("verifRetrieveNetworkRuleDNS")
 	e.Redirects[qMatchPattern] = l.Pkgs[modPath+"/rules"].Func("verifMatchPatternLiteral")
 	e.Redirects[qHashBetween] = l.Pkgs[modPath+"/filterutil"].Func("verifHashSummary")
+	e.InjectiveUF = "H/"
 	// the generic pool instance
 	for _, p := range l.Prog.AllPackages() {
 		_ = p
